@@ -171,6 +171,14 @@ def run(ctx: Ctx) -> None:
                 ctx.fail("malformed-output", f"html-off output is not well-formed renderer-only markup: {err}",
                          {"input": src, "cfg": gens.FIXED_CFGS[1], "output": html[:400], "error": err})
                 break
+        for src in gens.crossing_family():
+            html = mdd.render(src)
+            nsweep += 1
+            err = lex(html)
+            if err:
+                ctx.fail("malformed-output", f"html-off output is not well-formed renderer-only markup: {err}",
+                         {"input": src, "cfg": gens.FIXED_CFGS[1], "output": html[:400], "error": err})
+                break
         ctx.evaluations += nsweep
         ctx.cov["delimiter_sweep_strings"] = nsweep
         got = drv.batch(lines)
